@@ -1118,13 +1118,15 @@ class AsyncBackgroundBatcher(Generic[A_contra, R_co]):
         except KeyError:
             pass
         else:
-            return await fut
+            # Shield so cancelling this caller never cancels the future
+            # which is shared with the other callers for the same key
+            return await aio.shield(fut)
 
         fut = self._retention_cache[key] = self._loop.create_future()
         await self._queue.put((key, arg, fut))
 
         try:
-            return await fut
+            return await aio.shield(fut)
         finally:
             if self.retention_timeout > 0:
                 self._loop.call_later(
@@ -1216,6 +1218,8 @@ class AsyncBackgroundBatcher(Generic[A_contra, R_co]):
                 )
                 async for key, result in self.func(args):
                     fut = futs.pop(key)
+                    if fut.done():  # e.g. cancelled: nobody to answer
+                        continue
                     if isinstance(result, Exception):
                         fut.set_exception(result)
                     else:
@@ -1223,13 +1227,17 @@ class AsyncBackgroundBatcher(Generic[A_contra, R_co]):
         except Exception as e:
             logger.debug("Exception while processing batch", exc_info=True)
             for fut in futs.values():
-                fut.set_exception(e)
+                if not fut.done():
+                    fut.set_exception(e)
             return
 
         if futs:
             logger.error("Missing outputs for %d futures", len(futs))
             for key, fut in futs.items():
-                fut.set_exception(ValueError(f"Missing result for {key!r}"))
+                if not fut.done():
+                    fut.set_exception(
+                        ValueError(f"Missing result for {key!r}")
+                    )
 
 
 _CROSS_LOOP_POOL = ThreadPoolExecutor(32)
